@@ -11,3 +11,5 @@ def plan(ctx, base):
 RECOVERY_KINDS = ["reset", "txp", "txf", "packet_sent", "ack_range", "packet_lost", "metrics", "space_discarded", "active_path", "panic", "stall"]
 RECOVERY_ONLY = {"txf": '"ty":"conn_close"'}
 AMP_KINDS = ["reset", "datagram_received", "datagram_sent", "rxp", "txp", "txf", "endpoint_datagram_dropped", "endpoint_packet_sent", "dg", "panic", "stall"]
+CID_KINDS = ["reset", "tp", "txf", "rxf", "panic", "stall"]
+CID_ONLY = {"txf": "_cid", "rxf": "_cid"}
